@@ -33,6 +33,7 @@ import (
 //	NVH  NEW_VIEW whose embedded PREPREPARE hash differs from the proven/attached block (P4 variant)
 //	NC   the adversary's own PREPARE / COMMIT / PREPREPARE(view 0) / VIEW_CHANGE, genuinely signed over a NON-CANONICAL
 //	     encoding of the signed header (the canonical bytes followed by padding): every field reads the same
+//	PX   own genuine PREPARE / COMMIT for a hash nobody proposed, in the target's current view
 //	NVT  NEW_VIEW whose embedded proposal is genuinely signed but declares another message type (COMMIT) in its header
 //	NVB  NEW_VIEW valid in every signed part whose attached (unsigned) block body is another block (P4 variant)
 //	OUT  outsider-signed PREPARE / COMMIT / VIEW_CHANGE                            (P7)
@@ -377,6 +378,15 @@ func (a *Adv) build(soup []Sent, t *LState) []int {
 				blk := a.blockFor(h, tag)
 				add(a.facOf(string(b)).CreatePreprepareMessage(H, primitives.View(v), blk, kit.HashOf(blk)), prim)
 			}
+		}
+	}
+	if a.on("PX") {
+		other := kit.HashOf(a.blockFor(h, "OTHER"))
+		for _, b := range a.byz {
+			if r.Leader(t.View) != string(b) {
+				add(a.facOf(string(b)).CreatePrepareMessage(H, primitives.View(t.View), other), "PX")
+			}
+			add(a.facOf(string(b)).CreateCommitMessage(H, primitives.View(t.View), other), "PX")
 		}
 	}
 	if a.on("NC") {
